@@ -111,6 +111,8 @@ def c02(ctx):
     for sl in tier(ctx, ["qcls", "wrap", "smoke", "dir"], ["cls", "wrap", "panic", "smoke", "dir"]):
         printer_slice(ctx, sl)
     ctx.harness(["maporder-drive", "-prop", "C02"])   # maps print in key order: order-isomorphic unsafe keys, same redacted text
+    # the whole fmt-compatible universe of C04 (Go values of every kind) plus redact-specific values, built from two secrets
+    ctx.harness(["secrets-drive", "-prop", "C02", "-pairs", str(tier(ctx, 4000, 200000))])
     buffer_model(ctx, deep=False)      # a result that changes after it was returned is not independent of later data
 
 
@@ -129,6 +131,7 @@ def c06(ctx):
 def c11(ctx):
     printer_slice(ctx, "panic")
     printer_slice(ctx, "dir")
+    writer_model(ctx)      # every SafeWriter call sequence incl. JoinTo with non-slice, nil and typed-nil operands: no panic
     buffer_model(ctx, deep=False)
     ctx.harness(["fmtdiff-drive", "-prop", "C11", "-n", str(tier(ctx, 60000, 1500000))])
     if ctx.tier == "thorough":
